@@ -828,10 +828,10 @@ theorem C03_pi_grad_branches_differ :
   intro am ph
   constructor
   · simp only [piGradNoExpand, Bool.false_eq_true, if_false, mixingTerm_add_eq, mixingTerm_sub_eq]
-    simp [am, ph, csigmoid, Density.piArgRe, Density.piArgIm, PRBM.preactA, sumFin_eq, C.div, C.mul, C.conj, C.add,
+    simp [am, ph, C.csigmoidH_eq, csigmoid, Density.piArgRe, Density.piArgIm, PRBM.preactA, sumFin_eq, C.div, C.mul, C.conj, C.add,
       C.one, C.normSq]
     norm_num
-  · simp [piGrad, am, ph, csigmoid, Density.piArgRe, Density.piArgIm, PRBM.preactA, sumFin_eq, C.div, C.mul, C.conj,
+  · simp [piGrad, am, ph, C.csigmoidH_eq, csigmoid, Density.piArgRe, Density.piArgIm, PRBM.preactA, sumFin_eq, C.div, C.mul, C.conj,
       C.add, C.one, C.normSq]
 
 /-! ### non-vacuity of the hypotheses used above -/
